@@ -500,6 +500,9 @@ func (n *Assert) Args() []*Node    { return n.list0 }
 
 func (n *Assert) DropExprCachedMBounds() error { return n.AsNode().Walk(dropExprCachedMBounds) }
 
+// DropExprCachedMBounds is like Assert.DropExprCachedMBounds.
+func (n *Expr) DropExprCachedMBounds() error { return n.AsNode().Walk(dropExprCachedMBounds) }
+
 func (n *Assert) IsChooseCPUArch() bool {
 	if n.id0 != t.IDChoose {
 		return false
